@@ -38,6 +38,24 @@ class TemperatureFile(TemperatureArray):
 
         super().__init__(tp_array=temperature_arr, p_points=pressure_arr)
 
+        self._file_args = dict(filename=filename, skiprows=skiprows,
+                               temp_col=temp_col, press_col=press_col,
+                               temp_units=temp_units,
+                               press_units=press_units, delimiter=delimiter,
+                               reverse=reverse)
+
+    def write(self, output):
+        temperature = super().write(output)
+        # constructor arguments, so that the profile can be rebuilt from the
+        # same file (unset optional ones are left out and default on reload)
+        for key, value in self._file_args.items():
+            if value is None:
+                continue
+            if isinstance(value, str):
+                temperature.write_string(key, value)
+            else:
+                temperature.write_scalar(key, value)
+        return temperature
 
     @classmethod
     def input_keywords(cls):
